@@ -230,4 +230,54 @@ theorem strippedComps_nodup (all : List Face) (vs : List Nat) (rem : List Face) 
     (strippedComps all vs rem).Nodup :=
   List.Pairwise.of_map (·.1) (fun a b hab h' => hab (congrArg (·.1) h')) (h.sublist (strippedComps_fst_sublist all vs rem))
 
+/-! ## the insertion only looks at the oracle on (old node, new leaf) pairs -/
+
+namespace Forest
+variable {α : Type}
+
+theorem insertLeaf_congr (e1 e2 : α → α → Bool) (x : α) :
+    ∀ f : Forest α, (∀ y ∈ nodes f, e1 y x = e2 y x) → insertLeaf e1 x f = insertLeaf e2 x f := by
+  intro f
+  induction f with
+  | nil => intro _; rfl
+  | node y kids sibs ihk ihs =>
+    intro h
+    have hy : e1 y x = e2 y x := h y (by simp [nodes])
+    have hk := ihk fun z hz => h z (by simp [nodes, hz])
+    have hs := ihs fun z hz => h z (by simp [nodes, hz])
+    simp only [insertLeaf, hy, hk, hs]
+
+theorem insertTop_congr (encTop encIn enc : α → α → Bool) (x : α) :
+    ∀ f : Forest α, (∀ y ∈ nodes f, encTop y x = enc y x ∧ encIn y x = enc y x) →
+      insertTop encTop encIn x f = insertLeaf enc x f := by
+  intro f
+  induction f with
+  | nil => intro _; rfl
+  | node y kids sibs _ ihs =>
+    intro h
+    have hy : encTop y x = enc y x := (h y (by simp [nodes])).1
+    have hk := insertLeaf_congr encIn enc x kids fun z hz => (h z (by simp [nodes, hz])).2
+    have hs := ihs fun z hz => h z (by simp [nodes, hz])
+    simp only [insertTop, insertLeaf, hy, hk, hs]
+
+theorem foldl_insertTop_congr (encTop encIn enc : α → α → Bool) :
+    ∀ (l : List α) (f : Forest α),
+      (∀ x ∈ l, ∀ y, (y ∈ nodes f ∨ y ∈ l) → encTop y x = enc y x ∧ encIn y x = enc y x) →
+      l.foldl (fun f x => insertTop encTop encIn x f) f = l.foldl (fun f x => insertLeaf enc x f) f := by
+  intro l
+  induction l with
+  | nil => intro f _; rfl
+  | cons x xs ih =>
+    intro f h
+    simp only [List.foldl_cons]
+    rw [insertTop_congr encTop encIn enc x f fun y hy => h x List.mem_cons_self y (Or.inl hy)]
+    refine ih _ fun x' hx' y hy => h x' (List.mem_cons_of_mem _ hx') y ?_
+    rcases hy with hy | hy
+    · rcases (mem_nodes_insertLeaf enc x f y).mp hy with rfl | hy'
+      · exact Or.inr List.mem_cons_self
+      · exact Or.inl hy'
+    · exact Or.inr (List.mem_cons_of_mem _ hy)
+
+end Forest
+
 end M3d.MeshDiag
